@@ -195,7 +195,7 @@ def place_zeros(rng, n, zero, wkind):
         kill = on + (rng.sample(off, rng.randint(0, len(off) - 1)) if rng.random() < 0.3 else [])
     elif wkind == 'mixed':
         kill = [i for i in range(n) if rng.random() < 0.4]
-        kill = kill[:-1] if len(kill) == n else kill
+    kill = kill[:-1] if len(set(kill)) == n else kill
     for i in kill:
         w[i] = 0.0
     return w
@@ -298,11 +298,12 @@ def check(c):
     degenerate = False
     if name in METRICS:
         f = getattr(md, name)
-        kw = {'p': INF if c['p'] == 'inf' else c['p']} if name == 'minkowski' else {}
+        kw = {'p': INF if c['p'] == 'inf' else c['p']} if name == 'minkowski' and c['p'] is not None else {}
         p = kw.get('p', 3)
         X, Y, Z = c['X'], c['Y'], c['Z']
-        got = float(call(f, X[0], Y[0], pair=True, **kw))
-        add('pair-of-points', close(got, o_dist(X[0], Y[0], name, p)), '(a) %r vs %r' % (got, o_dist(X[0], Y[0], name, p)))
+        dm = {'dmin': c['dmin']} if 'dmin' in c else {}      # upconversion to >= dmin dimensions: same two points
+        got = float(call(f, X[0], Y[0], pair=True, **dict(kw, **dm)))
+        add('pair-of-points', close(got, o_dist(X[0], Y[0], name, p)), '(a) %r %r vs %r' % (dm, got, o_dist(X[0], Y[0], name, p)))
         got = np.asarray(call(f, np.array(X), np.array(Y), axis=0, **kw)).tolist()
         want = [[o_dist(a, b, name, p) for b in Y] for a in X]
         add('matrix-axis0', np.shape(got) == np.shape(want) and all(close(g, v) for gr, wr in zip(got, want)
@@ -310,6 +311,15 @@ def check(c):
         got = np.asarray(call(f, np.array(X), np.array(Z), pair=True, axis=1, **kw)).tolist()
         want = [o_dist(a, b, name, p) for a, b in zip(X, Z)]
         add('rows-axis1', np.shape(got) == np.shape(want) and veq(got, want, 1e-9, 1e-11), '(c) %r vs %r' % (got, want))
+        return bad, False
+    if name == 'Lnorm' and 'axis' in c:     # the norm taken along an axis of a 2-D array; p omitted -> 1
+        X, ax = c['X'], c['axis']
+        p = INF if c['p'] == 'inf' else 1 if c['p'] is None else c['p']
+        vecs = [list(v) for v in zip(*X)] if ax == 0 else X
+        want = [float(sum(1 for v in r if v != 0)) if p == 0 else max(abs(v) for v in r) if p == INF else
+                math.fsum(abs(v) ** p for v in r) ** (1.0 / p) for r in vecs]
+        got = np.asarray(call(md.Lnorm, np.array(X), axis=ax, **({} if c['p'] is None else {'p': p}))).ravel().tolist()
+        add('definition', veq(got, want, 1e-9, 1e-11), 'Lnorm(%r, p=%r, axis=%r) = %r, definition gives %r' % (X, c['p'], ax, got, want))
         return bad, False
     if name == 'Lnorm':
         p = INF if c['p'] == 'inf' else c['p']
@@ -333,39 +343,93 @@ def check(c):
             got = {'impose_variance': o_moment(y, w), 'impose_std': math.sqrt(o_moment(y, w)), 'impose_spread': o_spread(y)}
             add('target', close(got[name], t), '%s of result %r, target %r' % (name[7:], got[name], t))
             add('keeps-mean', close(o_mean(y, w), m0), 'mean %r -> %r' % (m0, o_mean(y, w)))
+    elif name in ('normalize', 'impose_sum') and 'mkind' in c:
+        mk = c['mkind']
+        kw = {k: c[k] for k in ('zsum', 'zmass') if c[k] != 'omit'}
+        mass = {'float': t, 'zero': 0.0}.get(mk, mk)
+        y = call(mm.normalize, wx, **kw) if mk == 'default' else call(mm.normalize, wx, mass, **kw) \
+            if name == 'normalize' else call(mm.impose_sum, mass, wx, **kw)
+        y = [float(v) for v in y]
+        if mk in ('float', 'zero'):         # the requested total (0: by scaling, or by counterbalance if zsum)
+            add('total', close(math.fsum(y), mass), 'sum %r, requested %r (%r) from %r -> %r' % (math.fsum(y), mass, kw, wx, y))
+        else:                               # 'l<p>' (default 'l2'): unit L-p norm
+            lp = 2 if mk == 'default' else int(mk[1:])
+            got = math.fsum(abs(v) ** lp for v in y) ** (1.0 / lp)
+            add('total', close(got, 1.0), 'L%d norm %r after normalize(mass=%r) from %r -> %r' % (lp, got, mk, wx, y))
     elif name in ('normalize', 'impose_sum'):
         y = call(mm.normalize, wx, t) if name == 'normalize' else call(mm.impose_sum, t, wx)
         add('total', close(math.fsum(float(v) for v in y), t), 'sum %r, requested %r' % (math.fsum(float(v) for v in y), t))
     elif name == 'impose_weight_norm':
-        y, w2 = call(mm.impose_weight_norm, x, wx, t)
+        t = 1.0 if c.get('mkind') == 'default' else t
+        y, w2 = call(mm.impose_weight_norm, x, wx) if c.get('mkind') == 'default' else call(mm.impose_weight_norm, x, wx, t)
         y, w2 = [float(v) for v in y], [float(v) for v in w2]
         add('total', close(math.fsum(w2), t), 'weights sum %r, requested %r' % (math.fsum(w2), t))
         add('keeps-mean', close(o_mean(y, w2), m0), 'mean %r -> %r' % (m0, o_mean(y, w2)))
     elif name in ('impose_support', 'impose_unweighted', 'impose_collapse'):
         n = len(x)
+        if name == 'impose_collapse' and 'form' in c:
+            # pairs in any order / orientation, given as a set (the documented form) or a list.  "Collapse the weight
+            # and position of each pair": of every pair one weight is zero and both positions coincide; points in no
+            # pair keep their weight; total and mean are kept
+            pairs = [tuple(p) for p in c['pairs']]
+            arg = set(pairs) if c['container'] == 'set' else pairs
+            y, w2 = call(mm.impose_collapse, arg, x, wx)
+            y, w2 = [float(v) for v in y], [float(v) for v in w2]
+            groups = components(n, pairs)
+            free = set(range(n)) - set(i for g in groups for i in g)
+            # description of the request (for the sub-case tag): does it contain a cycle; does some pair, in the order
+            # the pairs are presented, join two groups that were both started by earlier pairs
+            cyclic = len(set(frozenset(i % n for i in p) for p in pairs)) > sum(len(g) - 1 for g in groups)
+            late, seen = False, []
+            for i, j in arg:
+                hit = [g for g in seen if i % n in g or j % n in g]
+                late = late or len(hit) > 1
+                seen = [g for g in seen if g not in hit] + [set([i % n, j % n]).union(*hit)]
+            tg, tgt = 'pairs=late-join' if late else '', 'pairs=cyclic' if cyclic else ''
+            ok = all(w2[i] == wx[i] for i in free) and all(w2[i % n] == 0.0 or w2[j % n] == 0.0 for i, j in pairs)
+            info = 'pairs %r x=%r: weights %r -> %r, positions %r' % (arg, x, wx, w2, y)
+            add('zeros-exact', ok, info, tg)
+            add('keeps-total', close(math.fsum(w2), math.fsum(wx)), 'total %r -> %r; %s' % (math.fsum(wx), math.fsum(w2), info), tgt)
+            add('keeps-mean', close(o_mean(y, w2), m0), 'mean %r -> %r; %s' % (m0, o_mean(y, w2), info), tgt or tg)
+            add('positions-collapsed', all(y[i % n] == y[j % n] for i, j in pairs), info, tg)
+            return bad, False
         if name == 'impose_collapse':
             root = {}
             for i, j in c['pairs']:
                 root[j] = root.get(i, i)
             zero = set(root)
-            y, w2 = call(mm.impose_collapse, [tuple(p) for p in c['pairs']], x, wx)
+            args, kw = ([tuple(p) for p in c['pairs']], x, wx), {}
         else:
             sel = set(i % n for i in c['index'])
             zero = set(range(n)) - sel if name == 'impose_support' else sel
-            y, w2 = call(getattr(mm, name), list(c['index']), x, wx)
-        degenerate = math.fsum(wx[i] for i in range(n) if i not in zero) <= 0
-        if not degenerate:
+            args, kw = (list(c['index']), x, wx), {}
+            if c.get('nullable', 'omit') != 'omit':
+                args, kw = (args + (c['nullable'],), {}) if c.get('npos') else (args, {'nullable': c['nullable']})
+        rest = math.fsum(wx[i] for i in range(n) if i not in zero)
+        # nullable=False: "avoid null weights by reweighting non-index weights" -> defined if a non-index point exists
+        refill = rest <= 0 and c.get('nullable') is False and len(zero) < n
+        degenerate = rest <= 0 and not refill
+        if degenerate:      # no weight would be left: the documentation defines no result
+            return defined_or_abort(c, getattr(mm, name), *args, **kw)
+        if True:
+            y, w2 = call(getattr(mm, name), *args, **kw)
             y, w2 = [float(v) for v in y], [float(v) for v in w2]
-            if name == 'impose_collapse':   # a root receives the weight of its group; everything else is untouched
+            tg = '' if 'opt' not in c else 'nullable=False,all-mass-on-index' if refill else \
+                'index=%s' % c['ikind'] if c['ikind'] in ('empty', 'all', 'repeated') else ''
+            if refill:      # the designated weights vanish (the others were zero and now carry the total)
+                ok = all(w2[i] == 0.0 for i in zero)
+            elif name == 'impose_collapse':   # a root receives the weight of its group; everything else is untouched
                 want = [0.0 if i in zero else math.fsum([wx[i]] + [wx[j] for j, r in root.items() if r == i])
                         for i in range(n)]
                 ok = all(w2[i] == 0.0 if i in zero else close(w2[i], want[i]) if i in root.values() else
                          w2[i] == wx[i] for i in range(n))
             else:
                 ok = all((w2[i] == 0.0) == (i in zero or wx[i] == 0.0) for i in range(n))
-            add('zeros-exact', ok, 'weights %r -> %r, designated %r' % (wx, w2, sorted(zero)))
-            add('keeps-total', close(math.fsum(w2), math.fsum(wx)), 'total %r -> %r' % (math.fsum(wx), math.fsum(w2)))
-            add('keeps-mean', close(o_mean(y, w2), m0), 'mean %r -> %r' % (m0, o_mean(y, w2)))
+            info = '' if 'opt' not in c else '; %s(%r, %r, %r%s)' % (name, c['index'], x, wx, ''.join(', %r' % (v,) for v in args[3:]) + ''.join(', %s=%r' % kv for kv in kw.items()))
+            add('zeros-exact', ok, 'weights %r -> %r, designated %r%s' % (wx, w2, sorted(zero), info), tg)
+            add('keeps-total', close(math.fsum(w2), math.fsum(wx)), 'total %r -> %r%s -> %r' % (math.fsum(wx), math.fsum(w2), info, w2), tg)
+            add('keeps-mean', math.fsum(w2) > 0 and close(o_mean(y, w2), m0), 'mean %r -> %r%s -> %r, %r' % (
+                m0, o_mean(y, w2) if math.fsum(w2) > 0 else 'undefined (null weights)', info, y, w2), tg)
             if name == 'impose_collapse':
                 add('positions-collapsed', all(y[j] == y[r] for j, r in root.items()), 'pairs %r, positions %r' % (c['pairs'], y))
     elif name in ('impose_median', 'impose_mad'):
@@ -377,9 +441,12 @@ def check(c):
                 '%s of result %r, target %r (x=%r w=%r)' % (name[7:], got, t, x, w), wtag)
     elif name in ('impose_tmean', 'impose_tvariance', 'impose_tstd'):
         k, clip = c['k'], c['clip']
+        kk = tuple(k) if isinstance(k, list) and c.get('kform') != 'list' else k
+        if sum(k if isinstance(k, list) else [k, k]) >= 100:    # everything is trimmed ("will return nan") or more
+            return defined_or_abort(c, getattr(mm, name), t, x, w, k=kk, clip=clip)
         degenerate = name != 'impose_tmean' and o_tvar(x, w, k, clip) < 1e-6
         if not degenerate:
-            y = [float(v) for v in call(getattr(mm, name), t, x, w, k=tuple(k) if isinstance(k, list) else k, clip=clip)]
+            y = [float(v) for v in call(getattr(mm, name), t, x, w, k=kk, clip=clip)]
             got = o_tmean(y, w, k, clip) if name == 'impose_tmean' else o_tvar(y, w, k, clip)
             got = math.sqrt(got) if name == 'impose_tstd' else got
             add('target', close(got, t), '%s(k=%r, clip=%r) of result %r, target %r' % (name[7:], k, clip, got, t))
@@ -389,6 +456,12 @@ def check(c):
             o = c['order']
             want = 1.0 if o == 0 else 0.0 if o == 1 else o_moment(x, w, o)
             got = call(mm.moment, x, w, order=o)
+        elif name == 'mean' and 'opt' in c:     # tol: "any mean <= tol is zero" (a mean below -tol: not demanded)
+            tol = c['tol']
+            got = call(mm.mean, x, w, tol) if w is not None else call(mm.mean, x, tol=tol)
+            want = 0.0 if abs(m0) <= tol else m0
+            if m0 < -tol and tol > 0:
+                return bad, True
         else:
             got = call(getattr(mm, name), x, w)
         add('definition', close(got, want), '%s = %r, definition gives %r' % (name, got, want))
@@ -430,10 +503,14 @@ def work(chunk):
     for c in chunk:
         viol, degenerate = check_case(c)
         n = len(c['x']) if c['x'] else len(c['X'])
-        extra = [c.get(k) for k in ('k', 'clip', 'order', 'tol', 'p') if k in c]
+        extra = [c.get(k) for k in ('k', 'clip', 'order', 'tol', 'p', 'ikind', 'nullable', 'form', 'container', 'mkind',
+                                    'zsum', 'zmass', 'axis', 'dmin') if k in c]
         res.case('%s|%s|n=%d|%r' % (c['fn'], c['wk'], n, extra), not degenerate, jsonable(c) if not degenerate else None)
         for k, d in viol:
             res.violation(k, d, jsonable(c))
+    for a in ABORTS:
+        aborted[a] = aborted.get(a, 0) + 1
+    del ABORTS[:]
     p = res.part()
     p['aborted'] = aborted
     return p
@@ -443,6 +520,7 @@ def run(tier='quick', seed=0):
     per = 800 if tier == 'quick' else 25000
     rng = random.Random(seed)
     cases = [gen_case(name, rng) for name in NAMES for _ in range(per)]
+    cases += [gen_opt(name, random.Random('%d/%s/%d' % (seed, name, i))) for name in OPT for i in range(per)]
     res = Result(rule='%d functions x %d seeded cases (samples of 2-8 points in [-5,10]; weights None / equal / positive / '
                  'some exactly zero; targets, index sets, collapse pairs, trimming fractions 0-30%%, orders 0-4, p in '
                  '{0,1,2,3,4,inf}); distinct = (function, weight kind, n, parameters); non-trivial = operation defined '
